@@ -6,6 +6,11 @@ import vlib, flowgen
 from vlib import hexs
 
 # ---------------------------------------------------------------- message type codes (checked against Tables.v by the check)
+def tname(i):
+    """train ids are chosen so that every earlier id is a proper prefix of every later one (t0, t00, t000, ...): a look-up that
+    compares only a prefix of the id confuses them"""
+    return "t" + "0" * (i + 1)
+
 T = {"NODE_LOST": 0x8C, "NODE_NEW": 0x8D, "VENDOR": 0x93, "BM_OCC": 0xA0, "BM_FREE": 0xA1, "BM_MULTIPLE": 0xA2, "BM_ADDRESS": 0xA3,
      "BM_SPEED": 0xA6, "BM_CURRENT": 0xA7, "BM_CONFIDENCE": 0xA9, "BM_DYN_STATE": 0xAA, "BOOST_STAT": 0xB0, "BOOST_DIAGNOSTIC": 0xB2,
      "ACCESSORY_STATE": 0xB8, "ACCESSORY_NOTIFY": 0xBA, "LC_STAT": 0xC0, "LC_WAIT": 0xC4, "CS_STATE": 0xE1, "CS_DRIVE_ACK": 0xE2,
@@ -136,7 +141,7 @@ def yaml_of(c):
             for cv, idx in B["revs"]: tl += ["      - id: r%d" % idx, "        cv: %s" % "".join(chr(x) for x in cv)]
     rl = ["trains:"] if c.trains else ["trains: []"]
     for i, (l, h, bits) in enumerate(c.trains):
-        rl += ["  - id: t%d" % i, "    dcc-address: 0x%02x%02x" % (h, l), "    dcc-speed-steps: 126"]
+        rl += ["  - id: %s" % tname(i), "    dcc-address: 0x%02x%02x" % (h, l), "    dcc-speed-steps: 126"]
         if bits:
             rl.append("    peripherals:")
             for k, b in enumerate(bits): rl += ["      - id: f%d" % k, "        bit: %d" % b]
@@ -479,7 +484,7 @@ def mask_open_choice(c, d):
     p = parse_dump(d); mixed = set()
     for i, (l, h, _) in enumerate(c.trains):
         kinds = {("L" if at == 0 else "R") for g in p["segs"] for (al, ah, at) in p["segs"][g]["addrs"] if (al, ah) == (l, h)}
-        if len(kinds) > 1: mixed.add("t%d" % i)
+        if len(kinds) > 1: mixed.add(tname(i))
     out = []
     for l in d:
         f = l.split()
